@@ -10,6 +10,7 @@ package main
 // inputs (soundness of "equal"); nothing is ever evaluated on inputs.
 
 import (
+	"crypto/sha256"
 	"fmt"
 	"go/constant"
 	"go/types"
@@ -25,6 +26,7 @@ type Term struct {
 	Hint string       // display only
 	Obj  types.Object // for field/param leaves: the object (not part of identity)
 	str  string
+	key  string
 }
 
 func (t *Term) String() string {
@@ -79,7 +81,25 @@ func (t *Term) Pretty() string {
 	return "(" + strings.Join(parts, " ") + ")"
 }
 
-func eqT(a, b *Term) bool { return a.String() == b.String() }
+func eqT(a, b *Term) bool { return a == b || a.Key() == b.Key() }
+
+// Key is the identity of a term: a 128-bit structural hash (terms are DAGs
+// with heavy sharing, so their printed form can be exponentially larger).
+func (t *Term) Key() string {
+	if t.key != "" {
+		return t.key
+	}
+	h := sha256.New()
+	h.Write([]byte(t.Op))
+	h.Write([]byte{0})
+	h.Write([]byte(t.S))
+	h.Write([]byte{0})
+	for _, a := range t.Args {
+		h.Write([]byte(a.Key()))
+	}
+	t.key = fmt.Sprintf("%x", h.Sum(nil)[:16])
+	return t.key
+}
 
 func leaf(op, s string) *Term { return &Term{Op: op, S: s} }
 
@@ -408,13 +428,13 @@ func normalise(t *Term) *Term {
 		// never built: && and || become ite
 	}
 	if commutative[t.Op] && len(t.Args) == 2 {
-		if t.Args[0].String() > t.Args[1].String() {
+		if t.Args[0].Key() > t.Args[1].Key() {
 			t = &Term{Op: t.Op, S: t.S, Args: []*Term{t.Args[1], t.Args[0]}, Hint: t.Hint}
 		}
 	}
 	if t.Op == "set" || t.Op == "maplit" { // unordered collection
 		args := append([]*Term{}, t.Args...)
-		sort.Slice(args, func(i, j int) bool { return args[i].String() < args[j].String() })
+		sort.Slice(args, func(i, j int) bool { return args[i].Key() < args[j].Key() })
 		t = &Term{Op: t.Op, S: t.S, Args: args}
 	}
 	return t
@@ -422,35 +442,56 @@ func normalise(t *Term) *Term {
 
 func (t *Term) renorm() *Term { return normalise(t) }
 
-// subst replaces leaves/terms by f (bottom-up), renormalising.
+// subst replaces leaves/terms by f (top-down, first match wins),
+// renormalising; shared subterms are rewritten once.
 func (t *Term) subst(f func(*Term) *Term) *Term {
-	if r := f(t); r != nil {
-		return r
-	}
-	if len(t.Args) == 0 {
-		return t
-	}
-	changed := false
-	args := make([]*Term, len(t.Args))
-	for i, a := range t.Args {
-		args[i] = a.subst(f)
-		if args[i] != a {
-			changed = true
+	memo := map[*Term]*Term{}
+	var rec func(t *Term) *Term
+	rec = func(t *Term) *Term {
+		if r, ok := memo[t]; ok {
+			return r
 		}
+		var out *Term
+		if r := f(t); r != nil {
+			out = r
+		} else if len(t.Args) == 0 {
+			out = t
+		} else {
+			changed := false
+			args := make([]*Term, len(t.Args))
+			for i, a := range t.Args {
+				args[i] = rec(a)
+				if args[i] != a {
+					changed = true
+				}
+			}
+			if !changed {
+				out = t
+			} else {
+				out = normalise(&Term{Op: t.Op, S: t.S, Args: args, Hint: t.Hint, Obj: t.Obj})
+			}
+		}
+		memo[t] = out
+		return out
 	}
-	if !changed {
-		return t
-	}
-	n := &Term{Op: t.Op, S: t.S, Args: args, Hint: t.Hint, Obj: t.Obj}
-	return normalise(n)
+	return rec(t)
 }
 
-// walk visits every subterm.
+// walk visits every distinct subterm once.
 func (t *Term) walk(f func(*Term)) {
-	f(t)
-	for _, a := range t.Args {
-		a.walk(f)
+	seen := map[*Term]bool{}
+	var rec func(t *Term)
+	rec = func(t *Term) {
+		if seen[t] {
+			return
+		}
+		seen[t] = true
+		f(t)
+		for _, a := range t.Args {
+			rec(a)
+		}
 	}
+	rec(t)
 }
 
 func (t *Term) contains(pred func(*Term) bool) bool {
